@@ -598,4 +598,223 @@ theorem attachStats_ctr (sort : List RFile → List RFile) (stats : Stats) (gs :
       rw [this]
       simp [ctr_empty]
 
+/-! ## the collector under concurrency: invariant of the lock-level model (code as written: `unlockEarly = false`) -/
+
+def inCrit : Pc → Bool
+  | .locked => true
+  | .sending => true
+  | .sent => true
+  | _ => false
+
+/-- the downstream Send in progress, if any -/
+def Sys.fly (s : Sys) : Option Nat :=
+  if s.pcM = .sending then some s.flyM else if s.pcT = .sending then some s.flyT else none
+
+structure Inv (s : Sys) : Prop where
+  holdM : s.holder = some .main ↔ inCrit s.pcM = true
+  holdT : s.holder = some .timer ↔ inCrit s.pcT = true
+  flyM0 : s.pcM ≠ .sending → s.flyM = 0
+  flyT0 : s.pcT ≠ .sending → s.flyT = 0
+  flyMpos : s.pcM = .sending → 0 < s.flyM
+  flyTpos : s.pcT = .sending → 0 < s.flyT
+  aggZero : s.collecting = false → s.agg = 0
+  account : s.processed = s.agg + s.flyM + s.flyT + s.delivered
+  ret : s.processed = s.returned + (if s.curM = .send ∧ (s.pcM = .sending ∨ s.pcM = .sent) then 1 else 0)
+  finalNC : s.curM = .final → (s.pcM = .sending ∨ s.pcM = .sent) → s.collecting = false
+  obs : runObs ⟨none, 0, 0⟩ s.trace = some ⟨s.fly, s.delivered, s.returned⟩
+
+theorem runObs_append (t : TraceState) (a b : List Obs) :
+    runObs t (a ++ b) = (runObs t a).bind fun t' => runObs t' b := by
+  induction a generalizing t with
+  | nil => simp [runObs]
+  | cons o r ih =>
+    simp only [List.cons_append, runObs]
+    cases obsStep t o with
+    | none => simp
+    | some t' => simp [ih]
+
+theorem runObs_snoc (tr : List Obs) (o : Obs) (t t' : TraceState) (h : runObs ⟨none, 0, 0⟩ tr = some t)
+    (ho : obsStep t o = some t') : runObs ⟨none, 0, 0⟩ (tr ++ [o]) = some t' := by
+  rw [runObs_append, h]
+  simp [runObs, ho]
+
+theorem inv_init (n : Nat) : Inv (Sys.init n) := by
+  constructor <;> simp [Sys.init, inCrit, Sys.fly, runObs]
+
+theorem stepMain_inv (s : Sys) (h : Inv s) : Inv (stepMain false s) := by
+  obtain ⟨hM, hT, hfM0, hfT0, hfMp, hfTp, hagg, hacc, hret, hfin, hobs⟩ := h
+  unfold stepMain
+  cases hp : s.pcM with
+  | idle =>
+    simp only []
+    split
+    · exact ⟨hM, hT, hfM0, hfT0, hfMp, hfTp, hagg, hacc, hret, hfin, hobs⟩
+    · split
+      · constructor <;> simp_all [inCrit, Sys.fly]
+      · constructor <;> simp_all [inCrit, Sys.fly]
+  | want =>
+    simp only []
+    split
+    · rename_i hnone
+      have hTn : inCrit s.pcT = false := by
+        cases hc : inCrit s.pcT with
+        | false => rfl
+        | true => have := hT.mpr hc; simp [hnone] at this
+      constructor <;> simp_all [inCrit, Sys.fly]
+    · exact ⟨hM, hT, hfM0, hfT0, hfMp, hfTp, hagg, hacc, hret, hfin, hobs⟩
+  | locked =>
+    have hhold : s.holder = some .main := hM.mpr (by simp [hp, inCrit])
+    have hTn : s.pcT ≠ .sending := by
+      intro hc
+      have := hT.mpr (by simp [hc, inCrit])
+      simp [hhold] at this
+    have hflyN : s.fly = none := by simp [Sys.fly, hp, hTn]
+    have hfM := hfM0 (by simp [hp])
+    simp only []
+    cases hc : s.curM with
+    | send =>
+      simp only []
+      split
+      · constructor <;> simp_all [inCrit, Sys.fly] <;> omega
+      · refine ⟨by simp_all [inCrit], by simp_all [inCrit], by simp, by simp_all, by simp, by simp_all, by simp_all,
+          by first | (simp_all; omega) | simp_all, by simp_all, by simp_all, ?_⟩
+        apply runObs_snoc _ _ _ _ hobs
+        simp [obsStep, hflyN, Sys.fly, hTn, hp]
+    | final =>
+      simp only []
+      split
+      · split
+        · rename_i hcol hpos
+          refine ⟨by simp_all [inCrit], by simp_all [inCrit], by simp, by simp_all, by simp_all, by simp_all, by simp,
+            by first | (simp_all; omega) | simp_all, by simp_all, by simp, ?_⟩
+          apply runObs_snoc _ _ _ _ hobs
+          simp [obsStep, hflyN, Sys.fly, hTn, hpos, hp]
+        · rename_i hcol hz
+          have : s.agg = 0 := by omega
+          constructor <;> simp_all [inCrit, Sys.fly]
+      · constructor <;> simp_all [inCrit, Sys.fly]
+  | sending =>
+    have hhold : s.holder = some .main := hM.mpr (by simp [hp, inCrit])
+    have hTn : s.pcT ≠ .sending := by
+      intro hc
+      have := hT.mpr (by simp [hc, inCrit])
+      simp [hhold] at this
+    have hflyS : s.fly = some s.flyM := by simp [Sys.fly, hp]
+    have hfT := hfT0 hTn
+    simp only []
+    refine ⟨by simp_all [inCrit], by simp_all [inCrit], by simp, by simp_all, by simp, by simp_all, by simp_all,
+      by first | (simp_all; omega) | simp_all, by simp_all, by simp_all, ?_⟩
+    apply runObs_snoc _ _ _ _ hobs
+    simp [obsStep, hflyS, Sys.fly, hTn, hp]
+  | sent =>
+    have hhold : s.holder = some .main := hM.mpr (by simp [hp, inCrit])
+    have hTn : s.pcT ≠ .sending := by
+      intro hc
+      have := hT.mpr (by simp [hc, inCrit])
+      simp [hhold] at this
+    have hTc : inCrit s.pcT = false := by
+      cases hc : inCrit s.pcT with
+      | false => rfl
+      | true => have := hT.mpr hc; simp [hhold] at this
+    have hflyN : s.fly = none := by simp [Sys.fly, hp, hTn]
+    have hfM := hfM0 (by simp [hp])
+    have hfT := hfT0 hTn
+    simp only []
+    cases hc : s.curM with
+    | send =>
+      simp only []
+      refine ⟨by simp_all [inCrit], by simp_all [inCrit], by simp_all, by simp_all, by simp, by simp_all, by simp_all,
+        by simp_all, by simp_all, by simp_all, ?_⟩
+      apply runObs_snoc _ _ _ _ hobs
+      simp [obsStep, hflyN, Sys.fly, hTn, hp]
+    | final =>
+      simp only []
+      have hnc := hfin hc (Or.inr hp)
+      have ha := hagg hnc
+      refine ⟨by simp_all [inCrit], by simp_all [inCrit], by simp_all, by simp_all, by simp, by simp_all, by simp_all,
+        by simp_all, by simp_all, by simp_all, ?_⟩
+      apply runObs_snoc _ _ _ _ hobs
+      have : s.delivered = s.returned := by simp_all
+      simp [obsStep, hflyN, Sys.fly, hTn, this, hp]
+
+theorem stepTimer_inv (s : Sys) (h : Inv s) : Inv (stepTimer false s) := by
+  obtain ⟨hM, hT, hfM0, hfT0, hfMp, hfTp, hagg, hacc, hret, hfin, hobs⟩ := h
+  unfold stepTimer
+  cases hp : s.pcT with
+  | idle =>
+    simp only []
+    split
+    · constructor <;> simp_all [inCrit, Sys.fly]
+    · exact ⟨hM, hT, hfM0, hfT0, hfMp, hfTp, hagg, hacc, hret, hfin, hobs⟩
+  | want =>
+    simp only []
+    split
+    · rename_i hnone
+      have hMn : inCrit s.pcM = false := by
+        cases hc : inCrit s.pcM with
+        | false => rfl
+        | true => have := hM.mpr hc; simp [hnone] at this
+      have hMs : s.pcM ≠ .sending ∧ s.pcM ≠ .sent := by
+        constructor <;> (intro hc; simp [hc, inCrit] at hMn)
+      constructor <;> simp_all [inCrit, Sys.fly]
+    · exact ⟨hM, hT, hfM0, hfT0, hfMp, hfTp, hagg, hacc, hret, hfin, hobs⟩
+  | locked =>
+    have hhold : s.holder = some .timer := hT.mpr (by simp [hp, inCrit])
+    have hMc : inCrit s.pcM = false := by
+      cases hc : inCrit s.pcM with
+      | false => rfl
+      | true => have := hM.mpr hc; simp [hhold] at this
+    have hMn : s.pcM ≠ .sending ∧ s.pcM ≠ .sent := by
+      constructor <;> (intro hc; simp [hc, inCrit] at hMc)
+    have hflyN : s.fly = none := by simp [Sys.fly, hp, hMn.1]
+    have hfT := hfT0 (by simp [hp])
+    have hfM := hfM0 hMn.1
+    simp only []
+    split
+    · split
+      · rename_i hcol hpos
+        refine ⟨by simp_all [inCrit], by simp_all [inCrit], by simp_all, by simp, by simp_all, by simp_all, by simp,
+          by first | (simp_all; omega) | simp_all, by simp_all, by simp_all, ?_⟩
+        apply runObs_snoc _ _ _ _ hobs
+        simp [obsStep, hflyN, Sys.fly, hMn.1, hpos, hp]
+      · rename_i hcol hz
+        have : s.agg = 0 := by omega
+        constructor <;> simp_all [inCrit, Sys.fly]
+    · constructor <;> simp_all [inCrit, Sys.fly]
+  | sending =>
+    have hhold : s.holder = some .timer := hT.mpr (by simp [hp, inCrit])
+    have hMc : inCrit s.pcM = false := by
+      cases hc : inCrit s.pcM with
+      | false => rfl
+      | true => have := hM.mpr hc; simp [hhold] at this
+    have hMn : s.pcM ≠ .sending ∧ s.pcM ≠ .sent := by
+      constructor <;> (intro hc; simp [hc, inCrit] at hMc)
+    have hflyS : s.fly = some s.flyT := by simp [Sys.fly, hp, hMn.1]
+    have hfM := hfM0 hMn.1
+    simp only []
+    refine ⟨by simp_all [inCrit], by simp_all [inCrit], by simp_all, by simp, by simp_all, by simp, by simp_all,
+      by first | (simp_all; omega) | simp_all, by simp_all, by simp_all, ?_⟩
+    apply runObs_snoc _ _ _ _ hobs
+    simp [obsStep, hflyS, Sys.fly, hMn.1, hp]
+  | sent =>
+    have hhold : s.holder = some .timer := hT.mpr (by simp [hp, inCrit])
+    have hMc : inCrit s.pcM = false := by
+      cases hc : inCrit s.pcM with
+      | false => rfl
+      | true => have := hM.mpr hc; simp [hhold] at this
+    have hMn : s.pcM ≠ .sending ∧ s.pcM ≠ .sent := by
+      constructor <;> (intro hc; simp [hc, inCrit] at hMc)
+    simp only []
+    constructor <;> simp_all [inCrit, Sys.fly]
+
+theorem runSched_inv (sched : List Tid) (s : Sys) (h : Inv s) : Inv (runSched false s sched) := by
+  induction sched generalizing s with
+  | nil => exact h
+  | cons t rest ih =>
+    simp only [runSched, List.foldl_cons]
+    apply ih
+    cases t
+    · exact stepMain_inv s h
+    · exact stepTimer_inv s h
+
 end ZoektModel.C25
